@@ -173,25 +173,33 @@ def body_iff_content_length(chk, prog, cfg, b, fn, rule="R4.body_iff_cl"):
         chk.ob(rule, fn, "body read / header-block end located", False, f"reads={reads} anchors={anchors}", cfg=cfg)
         return
     after = b.reachable(anchors)
-    for r in reads:
-        odd = []
-        cl = False
-        for s_, lab, d, info in core.guards_dominating(prog, b, r):
-            if s_ not in after:
-                continue
-            calls = [c[1] for c in desc_calls(d)]
-            pure_cl = lab == "Some" and any(c.endswith("Headers::get") for c in calls) and \
-                desc_contains(d, lambda y: y[0] == "call" and y[1].endswith("Headers::get") and any(core.is_variant(a, "HeaderType", "ContentLength") for a in y[2])) and \
-                all(core.re.search(r"Headers::(get|new)$|(::|>::)(deref|as_ref|as_str|borrow|clone|into|from)$", c) for c in calls)
-            if pure_cl:
-                cl = True
-            elif lab in ("Continue", "Ok"):
-                continue            # `?` on the address / length parse: error propagation
-            else:
-                odd.append(f"{lab}: {core.short(str(d))[:90]}")
-        chk.ob(rule, fn, "the body is read exactly when headers.get(Content-Length) is Some (nothing else decides it)", cl and not odd,
-               f"Content-Length presence tested directly: {cl}; other deciding conditions: {odd}: bytes of a body the parser does not read are taken for the next request",
-               where=b.where(r), cfg=cfg)
+    oks = core.ok_return_blocks(b, "Ok")
+    cl_sw = []
+    for s_ in sorted(after):
+        t = b.term(s_)
+        if not t or t["k"] != "switch":
+            continue
+        info = core.switch_info(prog, b, s_)
+        if not info or info.get("kind") != "enum" or "Some" not in info["edges"] or info.get("src") is None:
+            continue
+        d = core._describe_place(prog, b, info["src"], 0, set())
+        calls = [c[1] for c in desc_calls(d)]
+        has_cl = desc_contains(d, lambda y: y[0] == "call" and y[1].endswith("Headers::get") and any(core.is_variant(a, "HeaderType", "ContentLength") for a in y[2]))
+        if has_cl:
+            pure = all(core.re.search(r"Headers::(get|new)$|(::|>::)(deref|as_ref|as_str|borrow|clone|into|from)$", c) for c in calls)
+            cl_sw.append((s_, info, pure, calls))
+    chk.ob(rule, fn, "one test of headers.get(Content-Length) decides whether a body follows", len(cl_sw) == 1, f"{len(cl_sw)} tests", cfg=cfg)
+    for s_, info, pure, calls in cl_sw[:1]:
+        chk.ob(rule, fn, "the test is on the presence of the field itself (no filter / and_then / method-dependent combinator)", pure,
+               f"the tested value goes through {[core.short(c) for c in calls]}: a body announced by Content-Length can then be left unread and is taken for the next request",
+               where=b.where(s_), cfg=cfg)
+        w = core.must_pass(b, anchors, oks, through_nodes=[s_])
+        chk.ob(rule, fn, "every successful parse passes that test", w is None, "a path returns a request without having looked at Content-Length", where=b.where(s_), path=w, cfg=cfg)
+        w = core.must_pass(b, [info["edges"]["Some"]], oks, through_nodes=reads, after_from=False)
+        chk.ob(rule, fn, "Content-Length present -> the body is read before the request is returned", w is None, "", where=b.where(s_), path=w, cfg=cfg)
+        none_t = info["edges"].get("None", info.get("otherwise"))
+        seen = b.reachable([none_t], removed_nodes=[s_]) if none_t is not None else set()
+        chk.ob(rule, fn, "Content-Length absent -> nothing further is read", not any(r in seen for r in reads), "", where=b.where(s_), cfg=cfg)
 
 
 def describe_short(prog, b, t):
